@@ -27,6 +27,7 @@ REGISTRY = {
     "T6lat": ("T6lat.v", "t6_lat", "gen"),
     "T7ser": ("T7ser.v", "t7_serial", "gen"),
     "T7unseen": ("T7unseen.v", "t7_unseen", "gen"),
+    "T7hist": ("T7hist.v", "t7_hist", "gen"),
     "T8": ("T8.v", "t8_kwargs", "gen"),
 }
 
